@@ -25,14 +25,17 @@ CH_IND_UUID = '3A657F47-D34F-46B3-B1EC-698E29B6B82C'
 
 
 class Env:
-    """One connection between the waiting side and its peer."""
+    """One connection between the two devices `pair`; conns = (Connection at pair[0] = central / initiator end,
+    Connection at pair[1] = peripheral / acceptor end)."""
 
-    def __init__(self, w, waiting, conns):
+    def __init__(self, w, waiting, conns, pair=(0, 1)):
         self.w = w
         self.waiting = waiting
-        self.local = w.devices[waiting]
-        self.peer = w.devices[1 - waiting]
-        self.conns = conns  # [central / initiator side Connection, peripheral / acceptor side Connection]
+        self.local_index = pair[waiting]
+        self.peer_index = pair[1 - waiting]
+        self.local = w.devices[self.local_index]
+        self.peer = w.devices[self.peer_index]
+        self.conns = conns
         self.conn = conns[waiting]  # Connection object of the waiting side
         self.peer_conn = conns[1 - waiting]
         self.x = {}  # procedure scratch (per connection)
@@ -41,7 +44,11 @@ class Env:
 class Proc:
     name = ''
     transport = 'le'
-    waiting = 0  # index of the device that awaits (0 = central / initiator, 1 = peripheral / acceptor)
+    waiting = 0  # which end awaits: 0 = central / initiator end, 1 = peripheral / acceptor end
+    n_devices = 2
+    pair = (0, 1)  # (central / initiator device, peripheral / acceptor device) of the connection under test
+    controller_attrs = {}
+    reconnect_fault = False  # also swept with the 'disconnect_and_reconnect_same_handle' fault
 
     def services(self, w):
         pass
@@ -174,6 +181,143 @@ class GattIndicate(_Gatt):
     async def run(self, env, t):
         await t('Device.indicate_subscribers', env.local.indicate_subscribers(self.ch_ind, b'\x01\x02\x03\x04'))
         assert env.x['got'] == [b'\x01\x02\x03\x04'], env.x['got']
+
+
+class _GattServerIsCentral(_Gatt):
+    """The GATT server is the LE central (device 0), the client the peripheral: only a central can be given a new
+    connection with the handle of the one it has not yet seen die (its connect() does not need its late host)."""
+
+    waiting = 1
+    reconnect_fault = True
+
+    async def discover(self, env):
+        from bumble.core import UUID
+        from bumble.device import Peer
+
+        peer = Peer(env.conns[1])  # the GATT client is the peripheral
+        await peer.discover_services()
+        for s in peer.services:
+            await s.discover_characteristics()
+        env.x['peer'] = peer
+        env.x['ind'] = peer.get_characteristics_by_uuid(UUID(CH_IND_UUID))[0]
+        await env.x['ind'].discover_descriptors()
+
+
+def _central_service(self, w):
+    from bumble import gatt
+
+    RW = gatt.Characteristic.READABLE | gatt.Characteristic.WRITEABLE
+    P = gatt.Characteristic.Properties
+    self.ch_ind = gatt.Characteristic(CH_IND_UUID, P.READ | P.NOTIFY | P.INDICATE, RW, bytes(4))
+    w.devices[0].add_service(gatt.Service(SVC_UUID, [self.ch_ind]))
+
+
+_GattServerIsCentral.services = _central_service
+
+
+class GattSubscribeServerCentral(_GattServerIsCentral):
+    name = 'gatt_subscribe_server_is_central'
+
+    async def run(self, env, t):
+        await t('CharacteristicProxy.subscribe', env.x['ind'].subscribe(lambda v: None))
+
+
+class GattCccdWriteCommandServerCentral(_GattServerIsCentral):
+    name = 'gatt_cccd_write_command_server_is_central'
+
+    async def run(self, env, t):
+        from bumble import gatt
+
+        cccd = env.x['ind'].get_descriptor(gatt.GATT_CLIENT_CHARACTERISTIC_CONFIGURATION_DESCRIPTOR)
+        await t('DescriptorProxy.write_value(CCCD, no response)', cccd.write_value(b'\x01\x00'))
+        await t('DescriptorProxy.write_value(CCCD, with response)', cccd.write_value(b'\x03\x00', with_response=True))
+
+
+# ---------------------------------------------------------------------------
+# outbound data that never left the host
+# ---------------------------------------------------------------------------
+class CreditGate:
+    """The controller is slow to return credits: Number Of Completed Packets events reach the host's handler
+    late (in order).  Installed as an instance attribute of the real Host."""
+
+    def __init__(self, host):
+        self.real = host.on_hci_number_of_completed_packets_event
+        self.holding = False
+        self.held = []
+        host.on_hci_number_of_completed_packets_event = self.on_event
+
+    def on_event(self, event):
+        if self.holding:
+            self.held.append(event)
+        else:
+            self.real(event)
+
+    def hold(self):
+        self.holding = True
+
+    def release(self):
+        self.holding = False
+        held, self.held = self.held, []
+        for e in held:
+            self.real(e)
+
+
+class _Queued(Proc):
+    """Central 0 keeps its controller's few ACL buffers busy with data for peripheral 1 (credits delayed); what it
+    then writes to peripheral 2 can only wait in the host's queue.  The connection to peripheral 2 is the one torn."""
+
+    n_devices = 3
+    pair = (0, 2)
+    buffers = 2
+    N_QUEUED = 3
+
+    @property
+    def controller_attrs(self):
+        return {0: {'total_num_le_acl_data_packets': self.buffers, 'total_num_acl_data_packets': self.buffers}}
+
+    def services(self, w):
+        self.rx = {i: [] for i in range(3)}
+        for i, d in enumerate(w.devices):
+            d.l2cap_channel_manager.register_fixed_channel(IDLE_CID, lambda handle, pdu, i=i: self.rx[i].append(bytes(pdu)))
+        self.c1 = w.connect_le(0, 1)
+        self.gate = CreditGate(w.hosts[0])
+        self.round = 0
+
+    async def prepare(self, env):
+        self.gate.release()
+
+    async def run(self, env, t):
+        w = env.w
+        self.round += 1
+        n1, n2 = len(self.rx[1]), len(self.rx[2])
+        self.gate.hold()
+        for k in range(self.buffers + 2):
+            w.devices[0].send_l2cap_pdu(self.c1[0].handle, IDLE_CID, bytes([self.round, k]) * 4)
+        for k in range(self.N_QUEUED):
+            w.devices[0].send_l2cap_pdu(env.conn.handle, IDLE_CID, bytes([0xA0 + self.round, k]) * 4)
+        q = w.hosts[0].le_acl_packet_queue
+        assert q.pending == self.buffers + 2 + self.N_QUEUED, q.pending
+        w.loop.call_later(1.0, self.gate.release)
+        v = await t('gatt_client.read_value [request behind the queued data]', env.conn.gatt_client.read_value(0x0003))
+        await asyncio.sleep(0.5)
+        assert len(self.rx[1]) - n1 == self.buffers + 2, (len(self.rx[1]) - n1)
+        assert len(self.rx[2]) - n2 == self.N_QUEUED, (len(self.rx[2]) - n2)
+        assert q.pending == 0, q.pending
+
+
+class Queued1(_Queued):
+    name = 'queued_outbound_data_1'
+    buffers = 1
+
+
+class Queued2(_Queued):
+    name = 'queued_outbound_data_2'
+    buffers = 2
+
+
+class Queued4(_Queued):
+    name = 'queued_outbound_data_4'
+    buffers = 4
 
 
 # ---------------------------------------------------------------------------
@@ -520,6 +664,7 @@ class ClassicDisconnect(Proc):
 PROC_CLASSES = [
     IdleLe, IdleClassic,
     GattRead, GattLongRead, GattWrite, GattDiscover, GattSubscribe, GattIndicate,
+    GattSubscribeServerCentral, GattCccdWriteCommandServerCentral, Queued1, Queued2, Queued4,
     PairLegacyJW, PairScJW, PairScPasskey,
     CocConnect, CocDisconnect, CocDrain,
     HciCommand, LeRemoteFeatures, LeL2capUpdateParameters, LeDisconnect, LeDisconnectPeripheral,
